@@ -4022,10 +4022,14 @@ EmitX86RFromM:
   if (ASMJIT_UNLIKELY(rm_rel->as<Mem>().has_offset() || (rm_info & kX86MemInfo_Index)))
     goto InvalidInstruction;
 
+  // Emit override prefixes.
+  writer.emit_segment_override(rm_rel->as<Mem>().segment_id());
+  writer.emit_address_override((rm_info & _address_override_mask()) != 0);
+
   // Emit mandatory instruction prefix.
   writer.emit_pp(opcode.v);
 
-  // Emit REX prefix (64-bit only).
+  // Emit REX prefix (64-bit only) - it has to be the last prefix, right before the opcode.
   {
     uint32_t rex = opcode.extract_rex(options) |
                    ((op_reg & 0x08) >> 1) | // REX.R (0x04).
@@ -4039,10 +4043,6 @@ EmitX86RFromM:
     op_reg &= 0x07;
     rb_reg &= 0x07;
   }
-
-  // Emit override prefixes.
-  writer.emit_segment_override(rm_rel->as<Mem>().segment_id());
-  writer.emit_address_override((rm_info & _address_override_mask()) != 0);
 
   // Emit instruction opcodes.
   writer.emit_mm_and_opcode(opcode.v);
